@@ -91,6 +91,10 @@ type Config struct {
 	Observed int
 	Crashes  []CrashPoint
 
+	// Retry makes the run about the second key generation of the keyper config (the first one is expected to
+	// fail and be restarted by shuttermint): outcomes, agreement and termination refer to that eon.
+	Retry bool
+
 	// HoldCheckIn[i] = h: keyper i's check-in is not included in a block before height h (a keyper that comes up
 	// late; the others cannot encrypt their evaluations for it until then).
 	HoldCheckIn map[int]int64
@@ -400,6 +404,12 @@ func (r *Rig) Eon() (uint64, bool) {
 		return 0, false
 	}
 	sort.Slice(eons, func(i, j int) bool { return eons[i] < eons[j] })
+	if r.Cfg.Retry {
+		if len(eons) < 2 {
+			return eons[0], false
+		}
+		return eons[1], true
+	}
 	return eons[0], true
 }
 
